@@ -189,6 +189,21 @@ func (g *c16gen) call() (string, []*G) {
 			t = gc("foo", args...)
 			l = glist(append([]*G{ga("foo")}, args...), nil)
 		}
+		if r.coin(0.4) {
+			// a bound term against a partial list whose known prefix has 0 .. arity+2 elements
+			full := append([]*G{ga("foo")}, args...)
+			if len(args) == 0 {
+				full = []*G{t}
+			}
+			k := r.intn(len(full) + 2)
+			pre := append([]*G{}, full...)
+			if k > len(pre) {
+				pre = append(pre, g.v())
+			} else {
+				pre = pre[:k]
+			}
+			return "=..", []*G{t, glist(pre, g.v())}
+		}
 		return "=..", []*G{t, g.pick(l, glist([]*G{ga("foo")}, g.v()), glist([]*G{g.v(), g.v()}, nil))}
 	case 11:
 		if r.coin(0.6) {
